@@ -5,6 +5,8 @@ import Jap.Lemmas.ChannelsKeys
 import Jap.Lemmas.ChannelsAssign
 import Jap.Lemmas.ChannelsDecode
 import Jap.Lemmas.ChannelsEnc
+import Jap.Lemmas.ChannelsTyped
+import Jap.Lemmas.ChannelsSrcTie
 /-!
 # C05 — The same settings give the same configuration through every input channel
 
@@ -332,6 +334,123 @@ theorem C05_unknown_rejected (P : Parser) (S : Settings) (ns : KV) (kv : Key × 
       exact ⟨kv, hkv, rfl⟩
     have : decodeLeafVal P (segsOf (dest kv.1).toList, kv.2) = none := by simp [decodeLeafVal, hseg, hun]
     simp only [apply, decode, render, tr (decodeLeafVal P) _ _ hm this, Option.map_none]
+
+/-! ## typed positions: the text channels and the value channels end in the same `_check_type`
+
+`Jap.Channels.Typed` (Core/ChannelsTyped.lean) transcribes `ActionTypeHint._check_type`, `parse_value_or_config`,
+`load_value` and `adapt_typehints` for int | float | bool | str | NoneType | Enum | Union | List | Dict | Tuple[T, …] |
+Tuple[T1..Tn] | TypedDict, with the `orig_val` mechanism.  The command line and the environment call `_check_type` with the
+option's TEXT, documents and objects with the loaded VALUE.  The loaders `L` (`load_value`) and `Y` (`json_or_yaml_load`)
+are parameters: the theorems hold for EVERY loader.
+
+FULL STATEMENT: for every type `t`, every value `v` (valid or not) and every text `s` that both loaders read as `v`:
+`viaText L Y t s = viaValue L Y t v` (same configuration, or rejected by both).  It fails exactly where the text can be
+taken for a `str` member (`C05_union_str_takes_text`: the documented ambiguity, outside the quantifier).  Proved for every type
+without a `str` reachable from the top through Unions (`noStrTop`; all container types qualify, whatever their item types —
+TypedDicts included since repair F62, /repo 6fc0048; `C05_tdict_field_leak` keeps the old behaviour as a regression witness). -/
+
+section typed
+open Jap.Channels.Typed
+
+/-- a string at a `str` position is stored as it is, whatever the loaders make of it (`""`, `" "`, `null`, `[1]`, `1e3`, `{}` …) -/
+theorem C05_str_position_keeps_text (L Y : String → PV) (s : String) : checkType L Y .str (.str s) = some (.str s) := by
+  rcases parseValue_str L s with h | h
+  · simp [checkType, h, adapt]
+  · generalize hp : parseValue L (.str s) = p at h
+    cases p <;> simp_all [checkType, adapt, PV.isStr]
+
+/-- a string at an `Optional[str]` position is kept as it is unless the loaders read it as null (then it is None through every
+    channel: strings take the same path whatever the channel) -/
+theorem C05_optional_str_position (L Y : String → PV) (s : String)
+    (hY : yload Y s ≠ .none) (hL : parseValue L (.str s) ≠ .none) :
+    checkType L Y (.union [.str, .none]) (.str s) = some (.str s) :=
+  optional_str_position L Y s hY hL
+
+/-- the items of a List / Dict / Tuple and the fields of a TypedDict never see the text of the whole option (`orig_val` is reset for
+    them; the four facts are regenerated from `adapt_typehints`: Gen/ChannelSrc) — for EVERY item type, Unions with `str` included -/
+theorem C05_items_never_see_option_text (Y : String → PV) (o : Option String) (t : Ty) (ts : List Ty) (names : List String) (x : PV) :
+    adapt Y o (.list t) x = adapt Y Option.none (.list t) x
+    ∧ adapt Y o (.dict t) x = adapt Y Option.none (.dict t) x
+    ∧ adapt Y o (.tupleVar t) x = adapt Y Option.none (.tupleVar t) x
+    ∧ adapt Y o (.tuple ts) x = adapt Y Option.none (.tuple ts) x
+    ∧ adapt Y o (.tdict names ts) x = adapt Y Option.none (.tdict names ts) x :=
+  ⟨adapt_orig Y o _ x rfl, adapt_orig Y o _ x rfl, adapt_orig Y o _ x rfl, adapt_orig Y o _ x rfl, adapt_orig Y o _ x rfl⟩
+
+/-- `orig_val` is irrelevant at every type without a `str` reachable from the top -/
+theorem C05_orig_val_irrelevant (Y : String → PV) (o : Option String) (t : Ty) (x : PV) (h : noStrTop t = true) :
+    adapt Y o t x = adapt Y Option.none t x :=
+  adapt_orig Y o t x h
+
+/-- a value channel is `adapt_typehints` on the value -/
+theorem C05_value_channel (L Y : String → PV) (t : Ty) (v : PV) (hv : v.isStr = false) (ht : noStrTop t = true) :
+    viaValue L Y t v = adapt Y Option.none t v :=
+  checkType_value L Y t v hv ht
+
+/-- THE PROPERTY at typed positions: the option's text through `--k=s` / the environment, and the value it stands for through a
+    document / an object, give the same configuration or are both rejected — valid and invalid values alike -/
+theorem C05_typed_channels (L Y : String → PV) (t : Ty) (s : String) (v : PV)
+    (ht : noStrTop t = true) (he : noEnumName s t = true) (hv : jsonTop v = true)
+    (hs1 : strip s.toList ≠ []) (hs2 : strip s.toList ≠ ['-']) (hL : L s = v) (hY : Y s = v) :
+    viaText L Y t s = viaValue L Y t v :=
+  typed_channels L Y t s v ht he hv hs1 hs2 hL hY
+
+def optStr : Ty := .union [.str, .none]
+def tok2p5 : NumTok := ⟨false, ['2'], some ['5'], Option.none⟩
+def exLoader : String → PV :=
+  tableLoader [("[\"a\", 2.5]", .list [.str "a", .num tok2p5]), ("[\"a\", null]", .list [.str "a", .none]), ("2.5", .num tok2p5),
+               ("{\"a\": 2.5, \"n\": 1}", .dict [("a", .num tok2p5), ("n", .int 1)]), ("null", .none), ("7", .int 7)]
+
+/-- non-vacuity: `List[Optional[str]]` meets the hypotheses; `["a", 2.5]` is rejected through both kinds of channel (seed C05-5A
+    makes the text channel return `["a", "[\"a\", 2.5]"]`), `["a", null]` is accepted by both with the same result -/
+example : noStrTop (.list optStr) = true ∧ noEnumName "[\"a\", 2.5]" (.list optStr) = true
+    ∧ strip "[\"a\", 2.5]".toList ≠ [] ∧ strip "[\"a\", 2.5]".toList ≠ ['-']
+    ∧ jsonTop (.list [.str "a", .num tok2p5]) = true ∧ exLoader "[\"a\", 2.5]" = .list [.str "a", .num tok2p5] := by
+  refine ⟨rfl, rfl, by decide, by decide, rfl, rfl⟩
+
+example : (viaText exLoader exLoader (.list optStr) "[\"a\", 2.5]").isNone = true
+    ∧ (viaValue exLoader exLoader (.list optStr) (.list [.str "a", .num tok2p5])).isNone = true
+    ∧ (viaText exLoader exLoader (.list optStr) "[\"a\", null]").isSome = true
+    ∧ (viaText exLoader exLoader (.union [.int, .none]) "7").isSome = true
+    ∧ (viaText exLoader exLoader (.dict (.union [.int, .str])) "[\"a\", 2.5]").isNone = true := by decide
+
+example : checkType exLoader exLoader (.union [.str, .none]) (.str "") = some (.str "")
+    ∧ checkType exLoader exLoader (.union [.str, .none]) (.str "[\"a\", 2.5]") = some (.str "[\"a\", 2.5]")
+    ∧ checkType exLoader exLoader (.union [.str, .none]) (.str "null") = some .none := ⟨rfl, rfl, rfl⟩
+
+/-- the hypothesis `noStrTop` can not be dropped: at `Union[int, str]` the text `2.5` IS a string (accepted), the float 2.5 of a
+    document fits no member (rejected); likewise `null` at `Union[int, str]`.  The documented ambiguity of text at positions
+    that admit `str` (outside the property's quantifier: "strings at str-typed positions") -/
+theorem C05_union_str_takes_text :
+    viaText exLoader exLoader (.union [.int, .str]) "2.5" = some (.str "2.5")
+    ∧ (viaValue exLoader exLoader (.union [.int, .str]) (.num tok2p5)).isNone = true
+    ∧ viaText exLoader exLoader (.union [.int, .str]) "null" = some (.str "null")
+    ∧ (viaValue exLoader exLoader (.union [.int, .str]) .none).isNone = true
+    ∧ noStrTop (.union [.int, .str]) = false := ⟨rfl, by decide, rfl, by decide, rfl⟩
+
+/-- REGRESSION WITNESS of repaired finding C05-typeddict-field-orig-val (F62, /repo 6fc0048).  With the OLD value of the fact
+    (`origResetTypedDict = false`: the per-field call kept `orig_val`) the field `a: Optional[str]` given 2.5 received the text of
+    the WHOLE option; with the value the source has now (`true`, regenerated) the field is rejected, as in a document / an object -/
+theorem C05_tdict_field_leak :
+    adaptField exLoader (itemOrig false (some "{\"a\": 2.5, \"n\": 1}")) ["a", "n"] [optStr, .int] "a" (.num tok2p5)
+      = some (.str "{\"a\": 2.5, \"n\": 1}")
+    ∧ (adaptField exLoader (itemOrig true (some "{\"a\": 2.5, \"n\": 1}")) ["a", "n"] [optStr, .int] "a" (.num tok2p5)).isNone = true
+    ∧ Jap.Gen.ChannelSrc.origResetTypedDict = true := ⟨rfl, by decide, rfl⟩
+
+/-- … so every TypedDict is covered by `C05_typed_channels`: the old witness is now rejected through both kinds of channel -/
+example : noStrTop (.tdict ["a", "n"] [optStr, .int]) = true
+    ∧ (viaText exLoader exLoader (.tdict ["a", "n"] [optStr, .int]) "{\"a\": 2.5, \"n\": 1}").isNone = true
+    ∧ (viaValue exLoader exLoader (.tdict ["a", "n"] [optStr, .int]) (.dict [("a", .num tok2p5), ("n", .int 1)])).isNone = true := by
+  refine ⟨rfl, by decide, by decide⟩
+
+end typed
+
+/-- a present-but-empty environment variable is a setting: the empty string at a str-typed position, a rejection at a
+    position that loads its text (seed C05-5B skips it) -/
+theorem C05_env_empty_variable (P : Parser) (d : Decl) (hk : d.kind = .raw) :
+    decodeEnv P [(envVar P.pfx d.key, "")] [d] = some [(skeys P d.key.segs, enc (.sc (.str "")))]
+    ∧ readLeafK .json "".toList = Option.none := by
+  refine ⟨?_, rfl⟩
+  simp [decodeEnv, lookupS, hk, readLeafK]
 
 /-! ## branch keys and `ActionParser` groups (facts regenerated from `_actions.py`: Gen/ChannelTables) -/
 
